@@ -50,18 +50,22 @@ func mkCA(name string) *ca {
 	c, err := x509.ParseCertificate(der)
 	must(err)
 	writePEM(name+".crt", "CERTIFICATE", der)
+	kd, err := x509.MarshalPKCS8PrivateKey(k)
+	must(err)
+	writePEM(name+".key", "PRIVATE KEY", kd)
 	return &ca{c, k}
 }
 
 func date(y int) time.Time { return time.Date(y, 1, 1, 0, 0, 0, 0, time.UTC) }
 
 type opt struct {
-	dns      []string
-	from, to int
-	eku      []x509.ExtKeyUsage
-	enc      bool
-	pub      crypto.PublicKey // foreign key type
-	priv     crypto.PrivateKey
+	dns        []string
+	from, to   int
+	fromT, toT time.Time // override from/to with exact dates
+	eku        []x509.ExtKeyUsage
+	enc        bool
+	pub        crypto.PublicKey // foreign key type
+	priv       crypto.PrivateKey
 }
 
 func leaf(c *ca, name string, o opt) {
@@ -90,9 +94,13 @@ func leaf(c *ca, name string, o opt) {
 		must(err)
 		keyDER = d
 	}
+	nb, na := date(o.from), date(o.to)
+	if !o.fromT.IsZero() {
+		nb, na = o.fromT, o.toT
+	}
 	serial++
 	t := &x509.Certificate{SerialNumber: big.NewInt(serial), Subject: pkix.Name{CommonName: name, Organization: []string{"verif"}},
-		DNSNames: o.dns, NotBefore: date(o.from), NotAfter: date(o.to), KeyUsage: ku, ExtKeyUsage: o.eku}
+		DNSNames: o.dns, NotBefore: nb, NotAfter: na, KeyUsage: ku, ExtKeyUsage: o.eku}
 	der, err := x509.CreateCertificate(rand.Reader, t, c.cert, pub, c.key)
 	must(err)
 	writePEM(name+".crt", "CERTIFICATE", der)
@@ -121,6 +129,18 @@ func main() {
 	pair(ca1, "client2", opt{})
 	pair(ca2, "client_untrusted", opt{})
 	pair(ca1, "client_expired", opt{from: 2020, to: 2025})
+	// validity that tells the configured time (2030-01-01) from any plausible real date: "recent" ended shortly
+	// before the configured date (still in date on a real clock until mid-2029), "late" begins shortly before it
+	// (not yet in date on a real clock)
+	mid2029 := time.Date(2029, 7, 1, 0, 0, 0, 0, time.UTC)
+	for _, who := range []string{"server", "client"} {
+		var dns []string
+		if who == "server" {
+			dns = srv
+		}
+		pair(ca1, who+"_recent", opt{dns: dns, fromT: date(2020), toT: mid2029})
+		pair(ca1, who+"_late", opt{dns: dns, fromT: mid2029, toT: date(2031)})
+	}
 	pair(ca1, "client_wrongeku", opt{eku: []x509.ExtKeyUsage{x509.ExtKeyUsageCodeSigning}})
 	// foreign key types
 	rk, err := rsa.GenerateKey(rand.Reader, 2048)
